@@ -72,8 +72,8 @@ type Scenario struct {
 	// LinkedRoot: the module is reached through a path one component of which is a symbolic link (a
 	// workspace on another volume, /tmp on macOS, a linked home directory); every path the harness uses
 	// is the spelling with the link.
-	LinkedRoot bool `json:"linked_root,omitempty"`
-	Infl     *InflCase   `json:"infl,omitempty"`
+	LinkedRoot bool      `json:"linked_root,omitempty"`
+	Infl       *InflCase `json:"infl,omitempty"`
 	// UniformGens: every run of the history uses the same generators, scripts and globals, so the final
 	// state of every local package is determined by the spec alone (C07-T5).
 	UniformGens bool `json:"uniform_gens,omitempty"`
@@ -363,4 +363,31 @@ func ResolveEntrypoints(m *ModuleSpec, eps []string) []int {
 // NoFaults marks every ExecSeq as unused (helper for hand-built faults).
 func symFault(kind, path string, nth int, do string) proto.Fault {
 	return proto.Fault{ExecSeq: -1, Kind: kind, Path: path, Nth: nth, Do: do}
+}
+
+// The errno alphabets of injected I/O errors, per kind of call: what the kernel can answer there for
+// reasons outside the program (permissions and read-only mounts, quotas and full disks, descriptor
+// limits, mount points and other devices, network file systems).
+var (
+	openErrnos   = []string{"EACCES", "EPERM", "EROFS", "ENOSPC", "EDQUOT", "EMFILE", "ENFILE", "EISDIR", "ENOENT", "ETXTBSY", "ELOOP", "EIO"}
+	readErrnos   = []string{"EACCES", "EIO", "EMFILE", "ESTALE", "EINTR"}
+	writeErrnos  = []string{"ENOSPC", "EIO", "EDQUOT", "EFBIG", "EINTR", "EAGAIN"}
+	renameErrnos = []string{"EACCES", "EPERM", "EROFS", "EBUSY", "EXDEV", "EIO", "ENOSPC", "EISDIR", "ENOTEMPTY"}
+	removeErrnos = []string{"EACCES", "EPERM", "EROFS", "EBUSY", "EIO"}
+)
+
+func errnosFor(kind string) []string {
+	switch kind {
+	case "os.open":
+		return openErrnos
+	case "os.read":
+		return readErrnos
+	case "os.write", "os.writeat", "os.sync", "os.close", "os.readfrom":
+		return writeErrnos
+	case "os.rename":
+		return renameErrnos
+	case "os.remove":
+		return removeErrnos
+	}
+	return []string{"EIO"}
 }
